@@ -248,6 +248,72 @@ def _shift_rule(chk, tu):
                                                                   "sign-extended" if signed else "unsigned values must not be sign-extended"))
 
 
+def _accum_rule(chk):
+    """Reading a 64-bit integer from text accumulates  acc = acc * base + digit  in uint64_t.  The result is exact
+    (and out-of-range input is rejected) only if that step cannot wrap, i.e. only under acc <= (MAX - digit) / base.
+    Recognised guards: `acc > (MAX - digit) / base` leaving the loop (exact); `acc > MAX / base` (not enough: for
+    acc == MAX / base the added digit can still wrap).  No guard at all is a violation; a guard of another form is reported as not analysable (exit 2), not as a pass."""
+    rule = "C14-ACCUM"
+    chk.rule(rule, "uint64 digit accumulation acc*base+digit is dominated by the exact no-wrap guard acc <= (UINT64_MAX - digit)/base")
+    prog = Program.load("default", units=["strtod.c"])
+    n = 0
+    for fn in prog.tus["strtod.c"].funcs.values():
+        sites = []
+        for x in fn.nodes:
+            if x.k == "asg" and x.op == "=" and is_ref(x.kids[0]) and "uint64" in (x.kids[0].t or ""):
+                r = strip_casts(x.kids[1])
+                if r.k == "bin" and r.op == "+":
+                    m, d = strip_casts(r.kids[0]), strip_casts(r.kids[1])
+                    if m.k == "bin" and m.op == "*":
+                        ops = [strip_casts(k) for k in m.kids]
+                        accs = [o for o in ops if is_ref(o, x.kids[0].name)]
+                        if accs:
+                            base = [o for o in ops if o is not accs[0]][0]
+                            sites.append((x, x.kids[0].name, base.text(), d.text()))
+        if not sites:
+            continue
+        chk.analysed(fn)
+        IN, T = flow.condition_facts(fn)
+        for x, S in flow.states_at(fn, IN, T):
+            for (site, acc, base, digit) in sites:
+                if x is not site:
+                    continue
+                n += 1
+                chk.instance(rule)
+
+                def shape(ps):
+                    best = "none"
+                    for f in ps:
+                        op, l, r, _, ln, rn = f
+                        if l != acc or op not in ("<=",) or rn is None:
+                            continue
+                        rr = strip_casts(rn)
+                        if rr.k == "bin" and rr.op == "/" and strip_casts(rr.kids[1]).text() == base:
+                            num = strip_casts(rr.kids[0])
+                            if num.k == "bin" and num.op == "-" and strip_casts(num.kids[0]).v == 2 ** 64 - 1 \
+                                    and strip_casts(num.kids[1]).text() == digit:
+                                return "exact"
+                            if num.v == 2 ** 64 - 1:
+                                best = "weak"
+                        elif is_ref(rr):
+                            # a precomputed limit that does not depend on the digit cannot be the exact bound
+                            best = "weak" if best == "none" else best
+                        elif best == "none":
+                            best = "unknown"
+                    return best
+                shapes = set(shape(ps) for ps in S)
+                if "unknown" in shapes:
+                    raise AnalysisBroken("%s: guard on `%s` before `%s` has a form this rule does not know" % (fn.name, acc, site.text()))
+                if shapes == {"exact"}:
+                    chk.ok(rule, "%s: `%s` under %s <= (UINT64_MAX - %s) / %s" % (fn.name, site.text(), acc, digit, base))
+                elif "exact" not in shapes or shapes - {"exact"}:
+                    chk.violation(rule, "strtod.c", fn.name, "%s*%s+%s" % (acc, base, digit), site.loc,
+                                  "`%s` is not dominated by `%s <= (UINT64_MAX - %s) / %s` (guard found: %s): for the largest accepted "
+                                  "accumulator the added digit wraps around 2^64, so an out-of-range literal is accepted with a wrong value"
+                                  % (site.text(), acc, digit, base, "/".join(sorted(shapes))))
+    chk.floor(rule, 1, n)
+
+
 def run(chk):
     prog = Program.load("default", units=["inttypes.c"])
     tu = prog.tus["inttypes.c"]
@@ -255,6 +321,7 @@ def run(chk):
     _wrap_rule(chk, tu)
     _shift_rule(chk, tu)
     _methods_rule(chk, prog, tu)
+    _accum_rule(chk)
     chk.floor("C14-DIV", 14)
     chk.floor("C14-WRAP", 10)
     chk.floor("C14-METHODS", 40)
